@@ -72,12 +72,3 @@ pub proof fn lemma_reach_step(p: Seq<u8>, off: int, k: int)
     ensures reach_plain(p, off, k + p[k] + 1)
     decreases p.len() - off
 { if off != k { lemma_reach_step(p, off + p[off] + 1, k); } else { reveal_with_fuel(reach_plain, 2); } }
-
-// data rules of a pointer-free record whose owner name ends at ne (the rdata part of pf_rr)
-pub open spec fn pf_rd_ok(p: Seq<u8>, ne: int) -> bool {
-    let t = be16(p, ne); let l = be16(p, ne + 8) as int; let d = ne + 10;
-    if t == 2 || t == 5 || t == 12 { pcs_end(p, d) == Some(d + l) }
-    else if t == 15 { l > 2 && pcs_end(p, d + 2) == Some(d + l) }
-    else if t == 6 { pcs_end(p, d) matches Some(n1) && (pcs_end(p, n1) matches Some(n2) && l > 21 && n2 + 20 == d + l) }
-    else { true }
-}
